@@ -46,6 +46,8 @@ def catalogue(etl):
         U('aggregate(key=None,len)', lambda a: etl.aggregate(a, None, len), 'EXPECT:' + ET([('value',), (0,)])),
         U('aggregate(key=None,sum)', lambda a: etl.aggregate(a, None, sum, 'v'), 'EXPECT:' + ET([('value',), (0,)])),
         U('aggregate(key=None,list)', lambda a: etl.aggregate(a, None, list, 'v'), 'EXPECT:' + ET([('value',), ([],)])),
+        U('aggregate(key=None,list of rows)', lambda a: etl.aggregate(a, None, list), 'EXPECT:' + ET([('value',), ([],)])),
+        U('aggregate(key=None,callable over rows)', lambda a: etl.aggregate(a, None, lambda rows: sum(1 for _ in rows)), 'EXPECT:' + ET([('value',), (0,)])),
         U('aggregate(key=None,multi)', lambda a: etl.aggregate(a, None, OrderedDict([('n', len)])), lambda a: 'multiagg KN 1 %s KN len - %s' % (E('n'), ET(a))),
         U('rowreduce', lambda a: etl.rowreduce(a, 'k', lambda k, rows: [k, len(list(rows))], header=['k', 'n']), None),
         U('rowgroupmap', lambda a: etl.rowgroupmap(a, 'k', lambda k, rows: rows, header=['k', 'v']), None),
@@ -196,7 +198,7 @@ def run(ctx):
     rng = ctx.rng
     cat = catalogue(etl)
     shapes = [['k', 'v'], ['k', 'v', 'w']]
-    ROWS = {2: [[1, 2], [1, 3], ['a', 5]], 3: [[1, 2, 'x'], [1, 3, 'y'], ['a', 5, None]]}
+    ROWS = {2: [[1, 2], [1, 3], ['a', 5], [None, 7]], 3: [[1, 2, 'x'], [1, 3, 'y'], ['a', 5, None], [None, 8, 'z']]}     # a None key too: the smallest key of all
     # text rows for regex ops are not needed: header-only inputs never reach the row code
     jobs = []
     for (name, arity, real, line) in cat:
